@@ -183,14 +183,53 @@ thread_local! {
 static OTHER_THREAD_PANICS: Mutex<Vec<PanicRecord>> = Mutex::new(Vec::new());
 static MAIN_THREAD: std::sync::OnceLock<std::thread::ThreadId> = std::sync::OnceLock::new();
 
+static mut ABORT_TEXT: [u8; 600] = [0; 600];
+static ABORT_LEN: std::sync::atomic::AtomicUsize = std::sync::atomic::AtomicUsize::new(0);
+
+fn remember_for_abort(text: &str) {
+    let b = text.as_bytes();
+    let n = b.len().min(600);
+    unsafe {
+        let p = std::ptr::addr_of_mut!(ABORT_TEXT) as *mut u8;
+        std::ptr::copy_nonoverlapping(b.as_ptr(), p, n);
+    }
+    ABORT_LEN.store(n, std::sync::atomic::Ordering::SeqCst);
+}
+
+fn forget_for_abort() {
+    ABORT_LEN.store(0, std::sync::atomic::Ordering::SeqCst);
+}
+
+extern "C" fn on_sigabrt(_sig: libc::c_int) {
+    let n = ABORT_LEN.load(std::sync::atomic::Ordering::SeqCst);
+    unsafe {
+        if n > 0 {
+            let head = b"abort after: ";
+            libc::write(2, head.as_ptr() as *const libc::c_void, head.len());
+            let p = std::ptr::addr_of!(ABORT_TEXT) as *const u8;
+            libc::write(2, p as *const libc::c_void, n);
+            libc::write(2, b"\n".as_ptr() as *const libc::c_void, 1);
+        }
+        libc::signal(libc::SIGABRT, libc::SIG_DFL);
+        libc::abort();
+    }
+}
+
 /// Installs a silent panic hook that records message and location.
 pub fn install_panic_hook() {
     let _ = MAIN_THREAD.set(std::thread::current().id());
+    unsafe {
+        libc::signal(libc::SIGABRT, on_sigabrt as *const () as libc::sighandler_t);
+    }
     std::panic::set_hook(Box::new(|info| {
         let message = if let Some(s) = info.payload().downcast_ref::<&str>() {
             s.to_string()
         } else if let Some(s) = info.payload().downcast_ref::<String>() {
             s.clone()
+        } else if info.payload().is::<crate::exec::CrashMarker>() {
+            "<crash marker>".to_string()
+        } else if let Some(s) = info.payload().downcast_ref::<crate::exec::StopMarker>() {
+            format!("<stop marker> {}", s.0)
         } else {
             "<non-string panic payload>".to_string()
         };
@@ -198,6 +237,9 @@ pub fn install_panic_hook() {
             .location()
             .map(|l| format!("{}:{}", l.file().trim_start_matches("/repo/"), l.line()))
             .unwrap_or_default();
+        // If this panic cannot unwind the process aborts right after the
+        // hook; the SIGABRT handler then prints this text for the parent.
+        remember_for_abort(&format!("panicked at {}: {}", location, message));
         let is_main = MAIN_THREAD.get() == Some(&std::thread::current().id());
         let rec = PanicRecord {
             message,
@@ -215,7 +257,9 @@ pub fn install_panic_hook() {
 /// Runs `f`, converting a panic into its record.
 pub fn catch<T>(f: impl FnOnce() -> T) -> Result<T, PanicRecord> {
     LAST_PANIC.with(|p| *p.borrow_mut() = None);
-    match std::panic::catch_unwind(std::panic::AssertUnwindSafe(f)) {
+    let r = std::panic::catch_unwind(std::panic::AssertUnwindSafe(f));
+    forget_for_abort();
+    match r {
         Ok(v) => Ok(v),
         Err(_) => Err(LAST_PANIC
             .with(|p| p.borrow_mut().take())
